@@ -75,10 +75,11 @@ Fixpoint write_all (script : list wr) (data dest : list N) : list N * list wr * 
     end
   end.
 
-(* private_flush: write_all(working_buffer.drain(..)): the buffer is emptied whatever happens *)
+(* private_flush: the write_all loop over the working buffer; what the destination took is drained, what it did not take
+   (after an error) stays buffered and is handed over by the next flush (fix D28) *)
 Definition private_flush (st : wst) : wst * wres :=
   let '(d, s, e) := write_all (w_script st) (w_buf st) (w_dest st) in
-  ({| w_open := w_open st; w_buf := []; w_dest := d; w_script := s |},
+  ({| w_open := w_open st; w_buf := skipn (length d - length (w_dest st)) (w_buf st); w_dest := d; w_script := s |},
    match e with None => WOk | Some x => WErr (EIo x) end).
 
 Definition start_tag (st : wst) (id : N) (size_len : nat) : wst :=
